@@ -6,11 +6,13 @@ response body of a manifest or MPD-patch endpoint:
 
   R1 well-formed          – lxml parses the bytes (no recovery, no DTD, no entities);
   R3 required attributes  – MPD: profiles, minBufferTime; dynamic: availabilityStartTime,
-                            publishTime; every type: mediaPresentationDuration unless
-                            minimumUpdatePeriod or the last Period@duration is present
-                            (Table 3 of 5.3.1.2); static needs mediaPresentationDuration
-                            or durations on every Period;  Patch: mpdId,
-                            originalPublishTime, publishTime;
+                            publishTime; static: mediaPresentationDuration or a duration
+                            on every Period (the attributes whose presence Table 3 of
+                            5.3.1.2 ties to MPD@type; the type-independent clause
+                            "mediaPresentationDuration shall be present when neither
+                            minimumUpdatePeriod nor the last Period@duration is" is not
+                            part of the property);  Patch: mpdId, originalPublishTime,
+                            publishTime;
   R4 lexical validity     – every xs:duration / xs:dateTime / unsigned-integer attribute
                             (table below, names from DASH-MPD.xsd) matches the XSD
                             lexical space and is non-negative;
@@ -147,6 +149,10 @@ def template_identifiers(value: str):
         i = b + 1
 
 
+def _where(el, attr, val):
+    return {"path": path_of(el), "attribute": attr, "value": val[:80]}
+
+
 def check_lexical(root, fails: list):
     for el in root.iter():
         if not isinstance(el.tag, str) or ns(el) not in (MPD_NS, PATCH_NS):
@@ -155,10 +161,9 @@ def check_lexical(root, fails: list):
         for attr, val in el.attrib.items():
             if attr.startswith("{"):
                 continue
-            where = {"path": path_of(el), "attribute": attr, "value": val[:80]}
             if attr in DURATION_ATTRS.get(name, ()):
                 if not _DUR.match(val):
-                    fails.append({"rule": "R4-duration", "what": "xs:duration attribute not lexically valid / negative", **where})
+                    fails.append({"rule": "R4-duration", "what": "xs:duration attribute not lexically valid / negative", **_where(el, attr, val)})
             elif attr in DATETIME_ATTRS.get(name, ()):
                 m = _DT.match(val)
                 ok = bool(m)
@@ -167,17 +172,17 @@ def check_lexical(root, fails: list):
                     ok = (y >= 1 and 1 <= mo <= 12 and 1 <= d <= 31 and
                           (h < 24 or (h == 24 and mi == 0 and s == 0)) and mi < 60 and s < 60)
                 if not ok:
-                    fails.append({"rule": "R4-dateTime", "what": "xs:dateTime attribute not lexically valid", **where})
+                    fails.append({"rule": "R4-dateTime", "what": "xs:dateTime attribute not lexically valid", **_where(el, attr, val)})
             elif attr in UINT_ATTRS.get(name, ()) or attr in UINT_ANY_ELEMENT:
                 if not _UINT.match(val):
-                    fails.append({"rule": "R4-uint", "what": "unsigned-integer attribute not lexically valid / negative", **where})
+                    fails.append({"rule": "R4-uint", "what": "unsigned-integer attribute not lexically valid / negative", **_where(el, attr, val)})
             elif attr in UINT_VECTOR_ATTRS.get(name, ()):
                 parts = val.split()
                 if not parts or not all(_UINT.match(p) for p in parts):
-                    fails.append({"rule": "R4-uint", "what": "unsigned-integer vector attribute not lexically valid", **where})
+                    fails.append({"rule": "R4-uint", "what": "unsigned-integer vector attribute not lexically valid", **_where(el, attr, val)})
             elif attr in INT_MIN_ATTRS.get(name, {}):
                 if not _INT.match(val) or int(val) < INT_MIN_ATTRS[name][attr]:
-                    fails.append({"rule": "R4-int", "what": "integer attribute not lexically valid / below its minimum", **where})
+                    fails.append({"rule": "R4-int", "what": "integer attribute not lexically valid / below its minimum", **_where(el, attr, val)})
 
 
 def check_mpd(root, fails: list):
@@ -192,14 +197,10 @@ def check_mpd(root, fails: list):
     periods = root.findall(q + "Period")
     if not periods:
         fails.append({"rule": "R3-required", "what": "MPD has no Period"})
-    last_has_duration = bool(periods) and periods[-1].get("duration") is not None
     if mtype == "dynamic":
         for a in ("availabilityStartTime", "publishTime"):
             if g(a) is None:
                 fails.append({"rule": "R3-required", "what": f"dynamic MPD without @{a}", "attribute": a})
-    if g("mediaPresentationDuration") is None and g("minimumUpdatePeriod") is None and not last_has_duration:
-        fails.append({"rule": "R3-required", "attribute": "mediaPresentationDuration", "type": mtype,
-                      "what": "neither MPD@mediaPresentationDuration nor MPD@minimumUpdatePeriod nor the last Period@duration is present"})
     if mtype == "static" and g("mediaPresentationDuration") is None and \
             not all(p.get("duration") is not None for p in periods):
         fails.append({"rule": "R3-required", "attribute": "mediaPresentationDuration", "type": mtype,
